@@ -8,7 +8,7 @@
    (golang.org/x/text/language), and the JavaScript backend (node). *)
 From Coq Require Import Permutation.
 (* source tie by translation: the lemmas of these files are obligations of this property *)
-From Soy Require Import Proofs.SourceTieMsg Proofs.SourceTiePo.
+From Soy Require Import Proofs.SourceTieMsg Proofs.SourceTiePo Proofs.SourceTieMsgLoops.
 From Soy Require Import Proofs.MsgIdProofs.
 From Soy Require Import Model.Bytes Model.Outcome Model.Num Model.Values Model.Ast Model.MsgId
   Model.Escape Model.Interp Model.MsgParts Spec.MsgCat Proofs.MsgPartsProofs Proofs.InterpRelProofs Proofs.InterpPosProofs Proofs.MsgCatProofs
